@@ -237,6 +237,9 @@ class Builtins:
                 return Builtin("set." + attr, upd)
             if attr == "union":
                 def un(a, k):
+                    from . import gmode, gexec
+                    if len(a) == 1 and isinstance(a[0], gmode.StarArgs):
+                        return gexec.union_star(self.I, o, a[0].slist)
                     t = o.term
                     for s in a:
                         if not isinstance(s, SSet):
@@ -246,6 +249,9 @@ class Builtins:
                 return Builtin("set.union", un)
         if isinstance(o, str) and attr == "join":
             def join(a, k):
+                from . import gmode, gexec
+                if isinstance(a[0], gmode.SList):
+                    return gexec.join(self.I, o, a[0])
                 items = list(self.iterate(a[0]))
                 parts = []
                 for i, it in enumerate(items):
@@ -735,6 +741,9 @@ class Builtins:
 
     def b_len(self, a, k):
         v = a[0]
+        from . import gmode, gexec
+        if isinstance(v, gmode.SList):
+            return gexec.b_len(self.I, v)
         if isinstance(v, (list, tuple, str)):
             return len(v)
         if isinstance(v, SDict):
@@ -788,6 +797,9 @@ class Builtins:
         raise Raise(self.make_exc("TypeError", f"round() argument {v!r}"), self.I.where())
 
     def b_sum(self, a, k):
+        from . import gmode, gexec
+        if isinstance(a[0], gmode.SList):
+            return gexec.b_sum(self.I, a[0], a[1] if len(a) > 1 else 0)
         items = self.iterate(a[0])
         acc = a[1] if len(a) > 1 else 0
         for it in items:
@@ -795,12 +807,18 @@ class Builtins:
         return acc
 
     def b_any(self, a, k):
+        from . import gmode, gexec
+        if isinstance(a[0], gmode.SList):
+            return gexec.b_any(self.I, a[0])
         for it in self.iterate(a[0]):
             if self.I.truth(it, "any"):
                 return True
         return False
 
     def b_all(self, a, k):
+        from . import gmode, gexec
+        if isinstance(a[0], gmode.SList):
+            return gexec.b_all(self.I, a[0])
         for it in self.iterate(a[0]):
             if not self.I.truth(it, "all"):
                 return False
@@ -810,6 +828,9 @@ class Builtins:
         return [(i, x) for i, x in enumerate(self.iterate(a[0]))]
 
     def b_zip(self, a, k):
+        from . import gmode, gexec
+        if any(isinstance(x, gmode.SList) for x in a):
+            return gexec.b_zip(self.I, list(a))
         return [tuple(t) for t in zip(*[self.iterate(x) for x in a])]
 
     def b_range(self, a, k):
@@ -818,12 +839,18 @@ class Builtins:
         return list(range(*a))
 
     def b_list(self, a, k):
+        from . import gmode, gexec
+        if a and isinstance(a[0], gmode.SList):
+            return gexec.copy_list(self.I, a[0])
         r = list(self.iterate(a[0])) if a else []
         self.I.heap_log.append(("alloc-list", id(r), None, self.I.where()))
         return r
 
     def b_tuple(self, a, k):
         from . import hashing
+        from . import gmode
+        if a and isinstance(a[0], gmode.SList):
+            return a[0]
         if a and isinstance(a[0], hashing.SortedItems):
             return a[0]              # tuple(sorted(items)): still a function of the item set
         if a and isinstance(a[0], DictView) and a[0].d.base is not None:
